@@ -118,6 +118,56 @@ let () =
            else Pass (nontrivial_frames fs)
          end)
     | _ -> Diff "malformed line") in
+  register "RDD" (fun i o -> match i, o with
+    | [cfg; frames; spec; tail; bufs; pat], [evs; partial; err] ->
+      let (c, skip, cb) = cfg_of_tok cfg in
+      let fs = frames_of_tok frames in
+      let evs = events_of_tok evs in
+      let sp = spec_run c Datatypes.O None [] fs in
+      (* expected: every intermediate control event; a completed message only when the pattern read it
+         (a 'p' message is reported only when its first read already ended it: left open) *)
+      let npat = String.length pat in
+      let rec expect k = function
+        | [] -> []
+        | e :: r -> if e.ev_inter then (if cb then [`Must e] else []) @ expect k r
+                    else (match pat.[k mod npat] with 'r' -> [`Must e] | 'p' -> [`May e] | _ -> []) @ expect (k+1) r in
+      let rec matches exp obs = match exp, obs with
+        | [], [] -> true
+        | `Must e :: r, o :: r' -> ev_matches e o && matches r r'
+        | `May e :: r, o :: r' -> (ev_matches e o && matches r r') || matches r obs
+        | `May _ :: r, [] -> matches r []
+        | _, _ -> false in
+      (match sp.sr_out with
+       | OClean ->
+         if err <> "eof" then Viol "discarding/skipping messages: the stream did not end cleanly"
+         else if not (matches (expect 0 sp.sr_events) evs) then Viol "after Discard a later message is wrong (skipped bytes leaked or a message was lost)"
+         else begin
+           let data = wire fs in
+           let s = mk_src data spec tail in
+           let r = new_reader s c.c_state skip c.c_check_utf8 c.c_max c.c_ext (if cb then CbReadAll else CbNone) in
+           let acts = List.init npat (fun k -> match pat.[k] with 'd' -> ADiscard | 'p' -> APartial | _ -> ARead) in
+           let m = drive_pat (nat_of_int (2 * List.length data + 4 * List.length fs + 50)) (List.map n_of_int (ints_spec bufs)) acts acts r in
+           if not (evs_eqb m.dr_events evs) then Diff "model events differ (discard pattern)"
+           else if string_of_rerror m.dr_err <> err then Diff "model final error differs (discard pattern)"
+           else Pass (nontrivial_frames fs)
+         end
+       | out ->
+         (* a violation (possibly inside a message being skipped) must still surface as that error *)
+         (match rerror_of_string err with
+          | Some e when err_matches out e ->
+            let data = wire fs in
+            let s = mk_src data spec tail in
+            let r = new_reader s c.c_state skip c.c_check_utf8 c.c_max c.c_ext (if cb then CbReadAll else CbNone) in
+            let acts = List.init npat (fun k -> match pat.[k] with 'd' -> ADiscard | 'p' -> APartial | _ -> ARead) in
+            let m = drive_pat (nat_of_int (2 * List.length data + 4 * List.length fs + 50)) (List.map n_of_int (ints_spec bufs)) acts acts r in
+            if string_of_rerror m.dr_err <> err then Diff "model final error differs (discard pattern)"
+            else if not (evs_eqb m.dr_events evs) then Diff "model events differ (discard pattern)"
+            else Pass (nontrivial_frames fs)
+          | _ ->
+            (match out with
+             | OInvalidUtf8 -> Pass false   (* Discard does not validate skipped text: left open *)
+             | _ -> Viol "a protocol violation inside a skipped/discarded message was not reported")))
+    | _ -> Diff "malformed line");
   register "RM" (rm false);
   register "RMC" (rm true);
   register "RS" (fun i o -> match i, o with
